@@ -142,6 +142,14 @@ Definition expand (r : run) : list N := match r with Rle c v => repeat v c | Pac
 
 Definition vbytes (w : nat) : nat := (w + 7) / 8.   (* ceil(w/8): bytes of an RLE value *)
 
+(* well-formed runs: what the format allows (counts fit the decoder's u32 counters, values fit the width) *)
+Definition bounded (w : nat) (l : list N) : Prop := Forall (fun v => (v < 2^N.of_nat w)%N) l.
+Definition wf_run (w : nat) (r : run) : Prop :=
+  match r with
+  | Rle c v => (0 < c)%nat /\ (N.of_nat c < 2147483648)%N /\ (v < 2^N.of_nat w)%N
+  | Packed g vs => (0 < g)%nat /\ (N.of_nat g < 268435456)%N /\ length vs = (8 * g)%nat /\ bounded w vs
+  end.
+
 Definition ser (w : nat) (r : run) : list N :=
   match r with
   | Rle c v => vlq (2 * N.of_nat c) ++ le_bytes (vbytes w) v
